@@ -452,6 +452,12 @@ impl HasChildren for XmlAttribute {
         }
 
         let v = XmlAttributeValue::try_from(value.clone())?;
+        // a reference put into an attribute value is subject to the constraints the parser enforces there
+        // (No External Entity References, No < in Attribute Values, ...)
+        if let Some(reference) = value.as_unexpanded() {
+            let entity = reference.borrow().entity.clone();
+            check_entity_reference(&entity, true, &|n| self.context.entity(n))?;
+        }
         value.remove_from_parent();
         value.set_parent_id(Some(self.id()));
         if let Some(id) = id {
